@@ -79,3 +79,8 @@ Definition tbl (l : list (val * val)) (v : val) : option val :=
 
 Definition jcase_ok (b85 keys : list (val * val)) (plain pre back : val) : bool :=
   jsame (jsonify (tbl b85) plain) pre && jsame (json_rt (tbl keys) pre) back && jsonable pre.
+
+(* the JSON converter's loads on what the library returned: the Converter's structure, in an environment whose bytes entries
+   were computed with the converter's own bytes hook *)
+Definition jload_ok (E : env) (cfg : ccfg) (t : ty) (back x : val) : bool :=
+  match structure E cfg FUEL t back with Ok y => val_same y x | _ => false end.
